@@ -67,6 +67,24 @@ Proof.
 Qed.
 Print Assumptions C16_commit_request_is_commits.
 
+(* a whole OffsetCommit request (distinct (topic, partition) entries) followed by an OffsetFetch of
+   the same partitions returns, per partition, exactly the committed offset and its own
+   metadata ("" for null) - after any earlier history, on both stores *)
+Theorem C16_request_roundtrip : forall brokers ops g req,
+  forallb is_coff_op ops = true ->
+  NoDup (map op_key (offset_commit_ops g req)) ->
+  let asked := map (fun tp => (fst tp, map (fun e => fst (fst e)) (snd tp))) req in
+  let committed := map (fun tp => (fst tp, map (fun e => (fst (fst e), snd (fst e), meta_or_empty (snd e), 0)) (snd tp))) req in
+  offset_fetch (im_lookup (fst (im_run (im_new brokers) (ops ++ offset_commit_ops g req)))) g asked = committed /\
+  (Forall op_topic_noslash ops -> Forall (fun tp => noslash (fst tp)) req ->
+   offset_fetch (et_lookup (fst (et_run (et_new brokers) (ops ++ offset_commit_ops g req)))) g asked = committed).
+Proof.
+  intros b ops g req H Hnd. cbv zeta. split.
+  - exact (request_roundtrip_im b ops g req H Hnd).
+  - intros Hn Hr. exact (request_roundtrip_et b ops g req H Hn Hr Hnd).
+Qed.
+Print Assumptions C16_request_roundtrip.
+
 Example C16_request_nonvacuous :
   let req := [(lit "orders", [(0, 5, Some (lit "checkpoint-a")); (1, 6, None); (2, 7, Some [])]); (lit "events", [(0, 8, None)])] in
   offset_fetch (im_lookup (fst (im_run (im_new 1) (offset_commit_ops (lit "g1") req)))) (lit "g1")
